@@ -140,9 +140,6 @@ func (c *Ctx) benignClass(si *siteInfo, l Lit) string {
 		// fast path "index is empty": membership in an empty index is false anyway
 		return "empty-index fast path"
 	}
-	if l.Via != "" && l.Kind == "cond" {
-		// literal obtained by expanding a helper: the helper call literal itself is what gets classified
-	}
 	return ""
 }
 
@@ -153,11 +150,11 @@ func (c *Ctx) finishSite(si *siteInfo, rule string) {
 		if _, ok := si.used[l.String()]; ok {
 			continue
 		}
-		if l.Via != "" {
-			continue // expansion of a helper call that is itself classified
-		}
 		if cl := c.benignClass(si, l); cl != "" {
 			continue
+		}
+		if call, _ := c.P.litHelperCall(l); call != nil && !c.P.isAnchor(call.Call.StaticCallee()) {
+			continue // a predicate helper: what its result implies is in the expanded literals, classified one by one
 		}
 		unknown = append(unknown, l.String())
 	}
